@@ -38,6 +38,13 @@ IsEmptyColl(s) == s.t = "nil" \/ (s.t = "seq" /\ Len(s.e) = 0) \/ (s.t = "map" /
 
 ParentTrig(F, obj) == IF F.embed # "" /\ SrcVal(F, obj).t = "panic" THEN "parent=nil" ELSE ""
 
+\* signature of a panic: the fields whose optional-embed parent is nil in the source value
+RECURSIVE NilParentSigs(_, _, _)
+NilParentSigs(M, obj, i) ==
+  IF i > Len(M.fields) THEN ""
+  ELSE (IF ParentTrig(M.fields[i], obj) # "" THEN Sig(M.fields[i]) \o ";" ELSE "") \o NilParentSigs(M, obj, i + 1)
+PanicSig(M, obj) == "panic nilparents=" \o NilParentSigs(M, obj, 1)
+
 ---------------------------------------------------------------------------
 \* C03  CopyTo into an empty schema-typed object is total and schema-conformant
 
@@ -56,7 +63,7 @@ Absent(M, tv) ==
 
 \* ctx: [M, tt (type of the REAL schema), obj (source), tf (result), dg, pn, conv]
 C03(ctx) ==
-     (IF ctx.pn THEN {VG("C03.nopanic", ctx.M.path)} ELSE {})
+     (IF ctx.pn THEN {[c |-> "C03.nopanic", p |-> ctx.M.path, sig |-> PanicSig(ctx.M, ctx.obj)]} ELSE {})
   \cup (IF HasError(ctx.dg) THEN {VG("C03.noerror", ctx.M.path)} ELSE {})
   \cup (IF ctx.pn THEN {} ELSE
           Absent(ctx.M, ctx.tf)
@@ -201,12 +208,20 @@ MaskCustomGo(M, i, g) ==
   ELSE LET F == M.fields[i]
        IN MaskCustomGo(M, i + 1, IF F.kind = "custom" /\ F.oneof = "" /\ CanSet(g, F.gopath) THEN SetPath(g, F.gopath, Nil) ELSE g)
 
+\* per-unit differences between two normal forms of the same message
+RtDiff(c, M, orig, a, b) ==
+  LET fieldDiffs == UNION {
+        LET F == M.fields[i]
+            gp == IF F.oneof # "" THEN <<F.oneof>> ELSE F.gopath
+        IN IF F.placeholder \/ GetPath(a, gp) = GetPath(b, gp) THEN {} ELSE {V(c, F, ParentTrig(F, orig))}
+        : i \in DOMAIN M.fields }
+  IN IF a = b THEN {} ELSE IF fieldDiffs = {} THEN {VG(c, M.path)} ELSE fieldDiffs
+
 \* ctx: [M, orig (value copied into the empty object), back (value read back into a fresh struct)]
 C04(ctx) ==
-  IF NF(ctx.M, MaskCustomGo(ctx.M, 1, ctx.back)) = NF(ctx.M, MaskCustomGo(ctx.M, 1, ctx.orig)) THEN {}
-  ELSE {VG("C04.roundtrip", ctx.M.path)}
+  RtDiff("C04.roundtrip", ctx.M, ctx.orig, NF(ctx.M, MaskCustomGo(ctx.M, 1, ctx.orig)), NF(ctx.M, MaskCustomGo(ctx.M, 1, ctx.back)))
 
 C19(ctx) ==
-  IF NF(ctx.M, MaskCustomGo(ctx.M, 1, ctx.back)) = NF(ctx.M, MaskCustomGo(ctx.M, 1, ctx.orig)) THEN {}
-  ELSE {VG("C19.exact", ctx.M.path)}
+  RtDiff("C19.exact", ctx.M, ctx.orig, NF(ctx.M, MaskCustomGo(ctx.M, 1, ctx.orig)), NF(ctx.M, MaskCustomGo(ctx.M, 1, ctx.back)))
+
 =============================================================================
